@@ -219,6 +219,15 @@ def obsSpec (cfg : Cfg) (items : List Item) (frames : List String) (snaps : List
   let beforeAck := parsed.takeWhile (fun f => f.1 != ackW)
   if beforeAck.any (fun f => opFrame f.1) then "violates:operation-frame-before-ack" else
   if snaps.any (fun sn => !sn.ops.isEmpty) && !(parsed.any (fun f => f.1 == ackW)) then "violates:operation-executed-before-ack" else
+  -- the handshake: the first client message must be an init that the InitFunc accepts
+  let firstMsg := items.findSome? fun
+    | .env (.clientSend m) _ => some m
+    | _ => none
+  let initAccepted := match firstMsg with
+    | some (.msg w _ pl _) => cfg.proto.toMessage w == some .init && cfg.proto.all.contains w && pl != .rej && pl != .num
+    | _ => false
+  if !initAccepted && snaps.any (fun sn => !sn.ops.isEmpty) then "violates:operation-executed-without-accepted-init" else
+  if !initAccepted && parsed.any (fun f => opFrame f.1) then "violates:operation-frame-without-accepted-init" else
   let starts := items.filterMap fun
     | .env (.clientSend (.msg w id _ _)) _ => if cfg.proto.toMessage w == some .start then some (if id.isEmpty then "-" else id) else none
     | _ => none
